@@ -61,6 +61,9 @@ class ParserConfig:
         _NotNumeric
             If the string cannot be parsed as a number.
         """
+        if not s.strip():
+            # an empty field is not the number 1
+            raise NotNumeric(s)
         val = self.to_scaled_units_container(s)
         if len(val):
             raise NotNumeric(s)
